@@ -64,6 +64,10 @@ func genSettleScenario(r *kernel.Rand, prop string) *kernel.Scenario {
 			sc.Steps = append(sc.Steps, kernel.St("pay", "from", r.Intn(2), "amt", amt, "coe", r.Weighted([]int{6, 1})))
 		}
 	}
+	if prop == "C04" && nsub > 0 && r.Bool(0.3) {
+		c["slow_sub_update_ms"] = int64([]int{2000, 7000}[r.Intn(2)])
+		c["short_settle_ctx"] = 1
+	}
 	if prop == "C04" {
 		// adversarial registrations of outdated states by side "adv" at drawn instants
 		adv := r.Intn(2)
@@ -212,6 +216,10 @@ func (p *pair) subOpen(step int, st *kernel.Step) {
 			want := big.NewInt(st.Int([]string{"a", "b"}[j]) / int64(1+a))
 			if pst.Balances[a][j].Cmp(want) < 0 || int(st.Int("all")) == j+1 {
 				want = new(big.Int).Set(pst.Balances[a][j])
+			}
+			if st.Int("over") == 1 && a == 0 && j == 0 {
+				// more than the parent holds: the proposer's own client must refuse it
+				want = new(big.Int).Add(pst.Balances[a][j], big.NewInt(1))
 			}
 			row[j] = want
 		}
